@@ -176,9 +176,11 @@ PostFails(e) ==
           THEN {} ELSE {"PO_Triples"})
     \cup (IF e.pointsOK THEN {} ELSE {"PO_Points"})
     \cup (IF Log[l].dig.all = Log[l + 1].dig.all THEN {} ELSE {"OB_Digest"})
+\* an observer that reports a value the specification defines: the value must be the specified function of the state
 ObsFails(e) ==
     (IF OB_Frame THEN {} ELSE {"OB_Frame"})
     \cup (IF Log[l].dig.all = Log[l + 1].dig.all THEN {} ELSE {"OB_Digest"})
+    \cup (IF "occ" \in DOMAIN e /\ Aligned' /\ e.occ # Occupation' THEN {"OB_Occupation"} ELSE {})
 SDFails(e) ==
     (IF pc = "out" THEN {} ELSE {"SD_Pre"})
     \cup (IF SD_Only(e.d) THEN {} ELSE {"SD_Only"})
